@@ -1217,6 +1217,26 @@ def replay_one(chk, V, sw, rp):
             same = len(set(checked)) <= 1
             print('replay: the checked calls %s' % ('agree' if same else 'DIFFER: the decision depends on the call history'))
             return 0 if same else 1
+        if op == 'addElement' and ('parent_qname' in inp or 'child_qname' in inp):
+            pq = tuple(inp['parent_qname']) if 'parent_qname' in inp else Q[eid[inp['parent']]]
+            cq = tuple(inp['child_qname']) if 'child_qname' in inp else Q[eid[inp['child']]]
+            pid = V.G.elems.ids.get(pq, 900001); cid = V.G.elems.ids.get(cq, 900002)
+            a = sw.drv.ask('schema %d' % pid).split()
+            ch = set(parse_ids(a[3]))
+            want = (-1 in ch) or (cid in ch)
+            try:
+                Element(qname=pq, check_grammar=False).addElement(Element(qname=cq, check_grammar=False)); got = True
+            except Exception:
+                got = False
+            print('replay: addElement(%s) on <%s>: %s; the schema %s' % (inp['child'], inp['parent'], 'accepted' if got else 'refused', 'permits it' if want else 'does not permit it'))
+            return 0 if got == want else 1
+        if op == 'addText' and 'element_qname' in inp:
+            try:
+                Element(qname=tuple(inp['element_qname']), check_grammar=False).addText(u'x'); got = True
+            except Exception:
+                got = False
+            print('replay: addText on <%s>: %s; the <anyName/> islands permit text' % (inp['element'], 'accepted' if got else 'refused'))
+            return 0 if got else 1
         if op == 'addElement':
             p, c = eid[inp['parent']], eid[inp['child']]
             par = Element(qname=Q[p], check_grammar=False)
